@@ -359,6 +359,9 @@ LMP_LINES = [
     "variable name index infretis_name\n", "fix 2 all langevin infretis_temperature infretis_temperature 500.0 1\n",
     "read_data infretis_lammpsdata # infretis_lammpsdata\n", "x infretis_n y\n", "timestep ${timestep} # add\n",
     "  infretis_timestep  \n",
+    # a variable as a word AND inside a longer word / next to a variable it is a prefix of, on the same line
+    "pair infretis_n infretis_name.data infretis_nsteps\n", "log my_infretis_seed.log # infretis_seed\n",
+    "print infretis_name_eq\n", "label infretis_nsteps_eq my_infretis_seed\n",
 ]
 LMP_KEYS = ["infretis_subcycles", "infretis_timestep", "infretis_nsteps", "infretis_name", "infretis_temperature",
             "infretis_lammpsdata", "infretis_n", "infretis_seed"]
